@@ -137,6 +137,7 @@ type params struct {
 	serverKey []byte
 	otherKey  []byte
 	emptyKey  []byte
+	zeroKey   []byte // HMAC(0^hashlen, "Server Key")
 	nonce     string
 }
 
@@ -144,11 +145,12 @@ func mkParams(h saslx.Hash, npass, salt []byte, iter int) params {
 	return params{salt: salt, iter: iter,
 		serverKey: saslx.ServerKey(h, saslx.Hi(h, npass, salt, iter)),
 		otherKey:  saslx.ServerKey(h, saslx.Hi(h, []byte("wrong-password"), salt, iter)),
-		emptyKey:  saslx.HMAC(h, nil, []byte("Server Key")), nonce: "srvNONCE"}
+		emptyKey:  saslx.HMAC(h, nil, []byte("Server Key")),
+		zeroKey:   saslx.HMAC(h, make([]byte, h.Size), []byte("Server Key")), nonce: "srvNONCE"}
 }
 
 func (p params) arg() string {
-	return hx.Hex(p.serverKey) + ":" + hx.Hex(p.otherKey) + ":" + hx.Hex(p.emptyKey)
+	return hx.Hex(p.serverKey) + ":" + hx.Hex(p.otherKey) + ":" + hx.Hex(p.emptyKey) + ":" + hx.Hex(p.zeroKey)
 }
 
 func srvSig(h saslx.Hash, key []byte, v *view) string {
@@ -180,6 +182,7 @@ const (
 	symIterEmpty      // i=
 	symIterJunk       // i=4096x
 	symIterHuge       // i=99999999999999999999
+	symFinalZero      // server-final computed from an ALL-ZERO SaltedPassword of the hash's length
 )
 
 var iterTexts = map[byte]string{symIter0: "0", symIterNeg: "-1", symIter00: "00", symIterPlus: "+5", symIterEmpty: "", symIterJunk: "4096x", symIterHuge: "99999999999999999999"}
@@ -234,6 +237,8 @@ func concretize(h saslx.Hash, p params, prev string, sym byte, v *view) reply {
 		return chal(v.lastfinal)
 	case symFinalOther:
 		return chal(srvSig(h, p.otherKey, v))
+	case symFinalZero:
+		return chal(srvSig(h, p.zeroKey, v))
 	case symFinalEmpty:
 		return chal("v=" + saslx.B64(saslx.HMAC(h, p.emptyKey, nil)))
 	case symEmpty:
@@ -459,6 +464,43 @@ func runCase(r *hx.Run, c hx.Case) {
 		r.Dist[fmt.Sprintf("len:%d", len(syms1)+len(syms2))]++
 		r.Dist["result:"+class1]++
 		r.Add(c, observable, nontrivial(syms1) || nontrivial(syms2))
+	case "c15m":
+		// several complete dialogues in ONE process, a fresh Auth value and a new connection each, same account
+		// args: variant dialogues rands user pass nuser npass salt iter tls keys
+		v := variantOf(c.Args[0])
+		var ds [][]byte
+		for _, d := range strings.Split(c.Args[1], "/") {
+			ds = append(ds, hx.UnHex(d))
+		}
+		user, pass := string(hx.UnHex(c.Args[3])), string(hx.UnHex(c.Args[4]))
+		salt := hx.UnHex(c.Args[7])
+		iter, _ := strconv.Atoi(c.Args[8])
+		var st *tls.ConnectionState
+		if v.plus {
+			st = tlsState(v.tlsVer)
+		}
+		nuser, uok := saslx.Opaque(saslx.EscapeName(user))
+		npass, pok := saslx.Opaque(pass)
+		p := mkParams(v.hash, npass, salt, iter)
+		var rands [][]byte
+		var parts []string
+		nt := false
+		for _, syms := range ds {
+			class, lines, replies, _, err := runAuth(newAuth(v, user, pass, st), v, p, "", syms)
+			if err != nil {
+				r.Fail(c.ID, "harness", err.Error())
+				return
+			}
+			rands = append(rands, randsOf(lines)...)
+			check(r, c.ID, v, npass, class, lines, replies)
+			parts = append(parts, obs(class, lines))
+			nt = nt || nontrivial(syms)
+		}
+		c.Args = []string{v.name, c.Args[1], hx.HexList(rands), hx.Hex([]byte(user)), hx.Hex([]byte(pass)), optHex(nuser, uok), optHex(npass, pok),
+			hx.Hex(salt), strconv.Itoa(iter), tlsArg(st), p.arg()}
+		r.Dist["variant:"+v.name]++
+		r.Dist["family:multi-dialogue"]++
+		r.Add(c, strings.Join(parts, " | "), nt)
 	default:
 		panic("unknown case kind " + c.Kind)
 	}
@@ -555,7 +597,7 @@ func Run(r *hx.Run, replay []hx.Case) {
 	// server-first whose r= is only a prefix of the client nonce (lengths 0, 1, len-1) or exactly the client nonce:
 	// [empty, that server-first] ++ suffix over {valid final, 235, final over empty state, valid first, empty, 535,
 	// final under another key} up to length 2
-	pfxAlpha := []byte{symFinal, symSuccess, symFinalEmpty, symFirst, symEmpty, symFailure, symFinalOther}
+	pfxAlpha := []byte{symFinal, symSuccess, symFinalEmpty, symFirst, symEmpty, symFailure, symFinalOther, symFinalZero}
 	for _, v := range variants {
 		for _, sf := range []byte{symFirstEmpty, symFirstOne, symFirstShort, symFirstExact} {
 			for n := 0; n <= 2; n++ {
@@ -584,6 +626,29 @@ func Run(r *hx.Run, replay []hx.Case) {
 				}
 				r.Dist["family:iteration-text"]++
 				runCase(r, mkCase(r, "c15", v.name, append([]byte{symEmpty, s}, suf...), nil, "user", "pencil", salt, 2))
+			}
+		}
+	}
+	// two and three complete dialogues in one process (fresh Auth value and connection each, same password / salt /
+	// iteration count): the first ends in a reset after the server-first was processed (forged final, junk, 535,
+	// restart, final over empty state), the next ones present the server-final computed from an all-zero SaltedPassword
+	for _, v := range variants {
+		ends := []byte{symFinalOther, symJunk, symFailure, symEmpty, symFinalEmpty, symFinalZero}
+		if !thorough {
+			ends = ends[:4]
+		}
+		for _, end := range ends {
+			d1 := hx.Hex([]byte{symEmpty, symFirst, end})
+			d2 := hx.Hex([]byte{symEmpty, symFirst, symFinalZero, symSuccess})
+			lists := []string{d1 + "/" + d2, d1 + "/" + d2 + "/" + d2, d1 + "/" + d1 + "/" + d2}
+			if !thorough {
+				lists = lists[:2]
+			}
+			for _, dl := range lists {
+				if r.Expired() {
+					break
+				}
+				runCase(r, hx.Case{ID: r.NewID(), Kind: "c15m", Args: []string{v.name, dl, "-", hx.Hex([]byte("user")), hx.Hex([]byte("pencil")), "~", "~", hx.Hex(salt), "2", "-", "-"}})
 			}
 		}
 	}
